@@ -189,7 +189,7 @@ class AMF:
         # optional IEs a real AMF may add (TS 38.413 9.2.5.2), in ASN.1 order: Old AMF and RAN Paging Priority come BEFORE the
         # NAS-PDU, Index to RFSP and UE-AMBR after it
         ies=[ie_named(t,10,0,ue.amf),ie_named(t,85,0,ue.ran)]
-        s.n_dlnas=getattr(s,'n_dlnas',0)+1
+        s.n_dlnas=getattr(s,'n_dlnas',s.cfg.get('dlnas_phase',0))+1   # the phase decides which downlink message gets which optional IEs
         k=s.n_dlnas%4
         if k in (1,3): ies.append(ie_named(t,48,0,OS(b'amf-old' if s.n_dlnas%8!=3 else ('amf-'+'x'*146).encode())))
         if k in (2,3): ies.append(ie_named(t,83,1,5))
